@@ -45,7 +45,8 @@ def gen_cases(tier, seed):
         nac = [None, "wang", "gonze"][i % 3] if name in crystals.POLAR else None
         cases.append({"crystal": {"name": name, "order": ["asis", "random"][rng.integers(2)], "order_seed": int(rng.integers(100))},
                       "smat": smats[rng.integers(len(smats))], "pmat": ["P", "centring"][rng.integers(2)], "nac": nac, "full": bool(rng.integers(2)),
-                      "seed": int(rng.integers(10 ** 6)), "_variant": ["omp", "serial"][(i // 3) % 2], "_cost": 3 if nac == "gonze" else 1})
+                      "seed": int(rng.integers(10 ** 6)), "_variant": ["omp", "serial"][(i // 3) % 2], "_cost": 3 if nac == "gonze" else 1,
+                      "factor": [None, None, 1.0, 521.47083, 108.97077][int(rng.integers(5))]})  # unit conversion factor: default (VASP, THz) | 1 | VASP->cm^-1 | QE
     return cases
 
 
@@ -69,6 +70,7 @@ def run_case(c):
     import yaml
     from vlib.gen import models, nac as nacgen, setup
 
+    c = {k: v for k, v in c.items() if not (k == "factor" and v is None)}
     ph, cd = setup.build_phonopy(dict(c, pmat=None))
     pm = setup.resolve_pmat(cd, c["pmat"])
     if pm != "P":
@@ -88,7 +90,7 @@ def run_case(c):
         ph.nac_params = nacgen.random_nac(ph, rng, method=c["nac"])
     factor = ph.unit_conversion_factor
     nb = 3 * len(pr)
-    viol, obs = [], {"fclayout_" + fckind: 1}
+    viol, obs = [], {"fclayout_" + fckind: 1, "factor_%s" % c.get("factor", "default"): 1}
     import phonopy._phonopy as phonoc
 
     build_is_omp = bool(phonoc.use_openmp())
